@@ -122,6 +122,8 @@ def _subtree(job):
                 try:
                     for sig, msg in (oracle(sc, ctx, full) if oracle is not None else []):
                         res.fails.append((sig, msg, {"scenario": sc_name, "program": full}))
+                    for k, v in getattr(ctx, "counters", {}).items():  # what the oracle itself enumerated for this program
+                        res.features["oracle:" + k] = res.features.get("oracle:" + k, 0) + v
                 except Exception as e:  # noqa: BLE001
                     res.fails.append(("oracle-exception", f"{type(e).__name__}: {e} {traceback.format_exc(limit=-3)[-400:]}", {"scenario": sc_name, "program": full}))
         # forced steps (a menu with a single entry) do not count against the free-call bound
